@@ -512,7 +512,7 @@ fn run(ctx: &mut Ctx) {
         }
     }
     let mut rng = ctx.rng(1);
-    let n = ctx.share(ctx.tier.pick(50_000, 6_000_000));
+    let n = ctx.share(ctx.tier.pick(600_000, 6_000_000));
     for k in 0..n {
         let mut cfg = Cfg::c17();
         if k % 5 == 0 {
